@@ -15,6 +15,14 @@
 (*   requested the text file is removed again.                             *)
 (* FromFile(ext): with an extension that file; without, the first existing *)
 (*   of pkl, yml/json.                                                     *)
+(* Vals are abstract atoms: LoadedEquiv demands that the file gives back    *)
+(* the content it was written from whatever the constants and the code are *)
+(* made of -- numbers, text of any length (a text file writer may not       *)
+(* re-flow it), text literals inside formulas, formulas calling functions   *)
+(* of a plugin module (the pickle is made by reading the text file again,   *)
+(* with the function table of the model being saved).  The concrete values  *)
+(* are bound by the driver: the value pool, the long-text family and the    *)
+(* plugin workbooks of harness/checks/c03.py.                               *)
 (* DEV_StalePickle = TRUE is the rule above (the code).  With FALSE the    *)
 (* pickle is rewritten whenever it does not hold the current content       *)
 (* (the repaired rule) -- the named deviation behind known finding D9.     *)
